@@ -86,6 +86,13 @@ def strategy_(g):
             pb = [o["v"][: R.PDIM[o["k"]]] for o in case["ops_b"]]
             if float(np.linalg.norm(np.array(pb[0]) - np.array(pb[1]))) < 0.1:
                 case["ops_b"][0]["v"][0] += 3.0
+        # history: the measurement of the same edge object is replaced (poses untouched) after its Jacobians were requested once
+        if tag in ("relpose", "prior"):
+            case["z_b"] = g.pose(kinds[0], s=s)
+        elif tag in ("dist", "range"):
+            case["z_b"] = [rnd.uniform(0.0, 2 * s)]
+        else:
+            case["z_b"] = g.vec(n, s=s)
         # all vertices of one kind may start from ONE pose object (e.g. every unknown initialised from the same origin object)
         case["shared_pose"] = bool(tag in ("relpose", "mid", "eqstep") and len(set(kinds)) == 1 and g.choice([False, False, True]))
         return case
@@ -150,6 +157,16 @@ def _check_edge(case, ctx):
         ctx.event("vertices-share-one-pose-object")
     if _check_edge_state(case, ctx, e, verts, kinds, ""):
         return
+    if "z_b" in case:
+        # history on the same edge object: the measurement is replaced while every pose stays bit-identical; the numeric
+        # Jacobians must be those of the edge as it is now
+        zb = case["z_b"]
+        e.estimate = gs.mk_pose(zb) if isinstance(zb, dict) else (np.array(zb, dtype=float) if case["tag"] in ("mid", "eqstep") else float(zb[0]))
+        ctx.event("measurement-replaced-after-first-jacobian-request")
+        if _check_edge_state(case, ctx, e, verts, kinds, " (after replacing the measurement, poses unchanged)"):
+            return
+        z0 = case["z"]
+        e.estimate = gs.mk_pose(z0) if isinstance(z0, dict) else (np.array(z0, dtype=float) if case["tag"] in ("mid", "eqstep") else float(z0[0]))
     if "ops_b" in case and not case.get("shared_pose"):
         # history on the same edge object: chi2 query, then the vertices move, then the numeric Jacobians are requested
         e.calc_chi2()
